@@ -2022,7 +2022,7 @@ class Tensor(object):
         """
 
         if mu < 0:
-            mu += self.dim()
+            mu = mu + self.dim()
 
         self._cp_to_tt()
         if self.batch:
